@@ -365,6 +365,7 @@ def run(ctx):
                                    'case': {'kind': 'rotation', 'case': case, 'step': i}})
 
     # ---------- routing ----------
+    shrunk = [0]
     reqs, impl_outs = [], []
     for case in route_cases:
         outs = impl_routing(case['mods'], case['ops'])
@@ -396,7 +397,8 @@ def run(ctx):
                 o = impl_routing(mods, ops)
                 a = ctx.driver.batch([{'p': 'C20', 'k': 'judge_route', 'mods': mods, 'ops': wire_ops(ops), 'outs': o}])[0]
                 return a.get('bad') is not None
-            small = ddmin(case['ops'], fails)
+            small = ddmin(case['ops'], fails) if shrunk[0] < 3 else case['ops']
+            shrunk[0] += 1
             o = impl_routing(case['mods'], small)
             last = small[-1] if small else None
             kinds = '+'.join(sorted({op[0] for op in small}))
